@@ -30,3 +30,7 @@ Definition layout (main_sizes : list Z) (subs : list (list Z)) (arr_sizes : list
 Definition layout_items (l : list item) (scratch_size : Z) : V :=
   let '(rs, st) := alloc_items 0 l in
   VL [VL (map (fun r => VZ (fst r)) rs); VZ (scratch st scratch_size)].
+
+(* bit-field variables sharing bytes of a packet: the final packet after a list of field stores *)
+From Verif Require Import Gen.BitField.
+Definition run_bits (pkt : list Z) (ops : list bop) : V := VB (fold_left bstep ops pkt).
